@@ -203,6 +203,20 @@ Theorem reprojected_request_srs_and_format :
     (w_fmts src <> [] -> exists e, In e (w_fmts src) /\ (r_fmt r = e \/ fmt_match (r_fmt r) e = true)).
 Proof. exact reprojected_request. Qed.
 
+(* The same directly over _get_transformed (the reprojection path itself, for whatever format f _get_map negotiated,
+   all configurations and all queries): a request built there carries exactly the negotiated format, only the
+   configured dimensions, the SRS picked by PreferredSrcSRS from supported_srs, and -- when the geometry predicate is
+   sound -- a bbox inside the coverage extent. *)
+Theorem get_transformed_request_contract :
+  forall (T : srs -> srs -> bbox -> option bbox) (GC : Z -> bbox -> bool)
+         (src : wms_source) (q : query) (f : fmt) (r : request),
+    get_transformed T GC src q f = Request r ->
+    r_fmt r = f /\
+    r_fwd r = dims_for_params (w_fwd src) (q_dims q) /\
+    preferred_src (w_pref src) (q_srs q) (w_srs src) = Some (r_srs r) /\
+    (geom_contains_sound GC src -> cov_ok T src r).
+Proof. exact get_transformed_inv. Qed.
+
 (* ... in particular the request of such a layer carries an srs_code that every source it stands for lists
    (sources whose lists name the same SRS with different codes are not combined). *)
 Theorem combined_request_srs_supported_by_every_member :
